@@ -72,6 +72,9 @@ def main():
         print('pinned %d statements' % len(info)); [print(' !', p) for p in problems]
         return 0
 
+    import glob
+    for old in glob.glob(os.path.join(VERIF, 'replays', pid + '-seed*.json')):
+        os.unlink(old)
     broken = []          # names of proof obligations / correspondences that no longer check
     logs = {}
     reg = common.registry()[pid]
